@@ -582,6 +582,59 @@ DEV_ID = {'unvisited': 0, 'order': 1, 'via': 2, 'replace': 3, 'none': 4, 'flag_t
           'multi': 7, 'unprinted': 8, 'extra': 9}
 
 
+# real statements whose parser trees are emitted as Lean data (`Gen.Schema.sampleTrees`): the kernel checks that the
+# hypothesis of the lifting theorems (`okTree`) holds for them and that the model visits them in textual order
+SAMPLE_SQL = [
+    "SELECT a, b AS c FROM t JOIN u ON t.x = u.x WHERE a = 1 AND b IN (1, 2) GROUP BY a HAVING count(a) > 1 ORDER BY b LIMIT 3 OFFSET 1",
+    "SELECT a FROM t1 LEFT JOIN t2 ON t1.i = t2.i JOIN t3 ON t2.j = t3.j WHERE t1.a > 0",
+    "WITH w AS (SELECT x FROM s WHERE y = 1) SELECT x FROM w WHERE x < 5",
+    "UPDATE t SET a = 1, b = b + 1 WHERE c = 2",
+    "INSERT INTO t (a, b) VALUES (1, 2), (3, 4)",
+    "INSERT INTO t (a) SELECT x FROM s WHERE x > 0",
+    "DELETE FROM t WHERE a BETWEEN 1 AND 2",
+    "SELECT CASE a WHEN 1 THEN 'x' ELSE 'y' END, CAST(b AS int), extract(MONTH FROM d), sum(a) OVER (PARTITION BY b ORDER BY c) FROM t",
+    "SELECT a FROM t UNION SELECT b FROM u",
+    "SELECT * FROM (SELECT a FROM t) AS s WHERE EXISTS (SELECT 1 FROM u) AND a NOT IN (SELECT b FROM v)",
+    "SELECT ?, a FROM t JOIN (SELECT ? AS k FROM u) AS q ON t.i = q.k WHERE b = ? ORDER BY ?",
+    "UPDATE t SET a = ?, b = ? WHERE c = ?",
+]
+
+
+def sample_trees(schema):
+    from mindsdb_sql import parse_sql
+    out = []
+    for sql in SAMPLE_SQL:
+        try:
+            t = parse_sql(sql, 'mindsdb')
+            num = walkspec.Numbering(t)
+            text, _, unknown = walkspec.rose(t, schema, num)
+        except Exception as e:
+            out.append(dict(sql=sql, error='%s: %s' % (type(e).__name__, e)))
+            continue
+        if unknown or num.shared:
+            out.append(dict(sql=sql, error='unknown class / slot %s or shared sub-object' % (unknown[:2],)))
+            continue
+        out.append(dict(sql=sql, rose=text))
+    return out
+
+
+def lean_node(text):
+    """'(c s t kid*)' -> Lean term"""
+    toks = text.replace('(', ' ( ').replace(')', ' ) ').split()
+    pos = [0]
+
+    def rec():
+        assert toks[pos[0]] == '('
+        c, s_, t = toks[pos[0] + 1:pos[0] + 4]
+        pos[0] += 4
+        kids = []
+        while toks[pos[0]] != ')':
+            kids.append(rec())
+        pos[0] += 1
+        return '.mk %s %s %s [%s]' % (c, s_, t, ', '.join(kids))
+    return rec()
+
+
 def lean_str(s):
     return '"' + s.replace('\\', '\\\\').replace('"', '\\"') + '"'
 
@@ -631,6 +684,11 @@ def emit_lean(schema):
     L.append('/-- the markers rendered by `sort_by_text_position` for %d placeholders, as code points -/' % len(schema['markers']['markers']))
     L.append('def markers : List (List Nat) := [%s]' % ', '.join('[%s]' % ', '.join(str(ord(ch)) for ch in m) for m in schema['markers']['markers']))
     L.append('')
+    ok = [x for x in schema.get('samples', []) if 'rose' in x]
+    L.append('/-- parser trees of real statements (mindsdb dialect), serialised by the harness on this run -/')
+    L.append('def sampleSql : List String := [%s]' % ', '.join(lean_str(x['sql']) for x in ok))
+    L.append('def sampleTrees : List Node := [\n  %s]' % ',\n  '.join(lean_node(x['rose']) for x in ok))
+    L.append('')
     L.append('/-- number of classes whose exemplars disagreed with each other (uniformity of the probe) -/')
     L.append('def nonuniform : Nat := %d' % sum(1 for c in schema['classes'].values() if c['nonuniform']))
     L.append('')
@@ -656,6 +714,8 @@ def build():
         classes[cn] = c
     schema = dict(class_names=names, class_id={n: i for i, n in enumerate(names) if n}, classes=classes,
                   parsed=parsed, markers=probe_markers())
+    schema['classes'] = {cn: dict(c, slot_id=c['slot_id']) for cn, c in classes.items()}
+    schema['samples'] = sample_trees(schema)
     return schema
 
 
